@@ -54,6 +54,9 @@ type State struct {
 	pc      *PCNode
 	witness *term.Model
 	conc    map[int]uint64 // concretised terms (term id → value)
+	pinned  map[int]uint64 // variables whose value is fixed by an equality in the path condition (var term id → value)
+	pinName map[string]uint64
+	pinModel *term.Model
 	nondet  []*term.Term   // nondet variables in creation order
 	pauses  []pause
 	instrs  int64
@@ -105,6 +108,16 @@ func (e *Exec) fork(st *State) *State {
 			ns.conc[k] = v
 		}
 	}
+	if st.pinned != nil {
+		ns.pinned = make(map[int]uint64, len(st.pinned))
+		for k, v := range st.pinned {
+			ns.pinned[k] = v
+		}
+		ns.pinName = make(map[string]uint64, len(st.pinName))
+		for k, v := range st.pinName {
+			ns.pinName[k] = v
+		}
+	}
 	ns.nondet = append([]*term.Term(nil), st.nondet...)
 	ns.pauses = append([]pause(nil), st.pauses...)
 	ns.notes = append([]string(nil), st.notes...)
@@ -126,6 +139,52 @@ func (st *State) addPC(t *term.Term) {
 		n = st.pc.N + 1
 	}
 	st.pc = &PCNode{T: t, Prev: st.pc, N: n}
+	st.notePin(t)
+}
+
+// notePin records variables pinned to a constant by a conjunct of the form (= ext*(var) const).
+func (st *State) notePin(t *term.Term) {
+	if t.Op != term.OpEq {
+		return
+	}
+	x, c := t.A, t.B
+	if x.IsConst() {
+		x, c = c, x
+	}
+	if !c.IsConst() {
+		return
+	}
+	val := c.Val
+	for x.Op == term.OpZExt || x.Op == term.OpSExt {
+		inner := x.A
+		// the constant must be representable in the narrower operand, otherwise the equality is just false
+		m := uint64(1)<<inner.W - 1
+		if x.Op == term.OpZExt && val&^m != 0 {
+			return
+		}
+		if x.Op == term.OpSExt {
+			sh := 64 - uint(inner.W)
+			full := uint64(int64((val&m)<<sh) >> sh)
+			if x.W < 64 {
+				full &= uint64(1)<<x.W - 1
+			}
+			if full != val {
+				return
+			}
+		}
+		val &= m
+		x = inner
+	}
+	if x.Op != term.OpVar || x.W == 0 {
+		return
+	}
+	if st.pinned == nil {
+		st.pinned = map[int]uint64{}
+		st.pinName = map[string]uint64{}
+	}
+	st.pinned[x.ID] = val
+	st.pinName[x.Name] = val
+	st.pinModel = nil
 }
 
 // pcKnown reports whether t (or its negation) is literally a conjunct of the path condition.
